@@ -300,7 +300,12 @@ func (f *format) histRun(modes string, docs [][]byte) (string, string) {
 			if mode == "P" {
 				err = p.Parse(d)
 			} else {
-				_, err = p.Write(d)
+				// written in pieces; the cut positions are a function of the document's bytes (replayable)
+				for _, c := range docChunks(d) {
+					if _, err = p.Write(c); err != nil {
+						break
+					}
+				}
 				if err == nil && (i == len(docs)-1) {
 					err = p.VerifFinalize()
 				}
@@ -329,6 +334,27 @@ func (f *format) histRun(modes string, docs [][]byte) (string, string) {
 	reused := fmt.Sprintf("EV %s R %s D %s", eventsTok(evs), verdictTok(o, err), depths)
 	fresh := f.parseRun("P", -1, [][]byte{probe})
 	return reused, fresh
+}
+
+// docChunks cuts a document into the pieces it is written in: derived from its bytes only.
+// Half of the documents that contain a backslash are cut right behind one of them.
+func docChunks(d []byte) [][]byte {
+	h := uint64(1469598103934665603)
+	for _, b := range d {
+		h = (h ^ uint64(b)) * 1099511628211
+	}
+	r := newRng(h)
+	var bs []int
+	for i, b := range d {
+		if b == '\\' && i+1 < len(d) {
+			bs = append(bs, i+1)
+		}
+	}
+	if len(bs) > 0 && r.bool() {
+		c := bs[r.n(len(bs))]
+		return [][]byte{d[:c:c], d[c:len(d):len(d)]}
+	}
+	return r.chunking(d)
 }
 
 func (f *format) histCase(r *rng) string {
